@@ -32,7 +32,8 @@ where
         let slice = iter.as_slice();
         match begin_idx.cmp(&slice.len()) {
             Ordering::Less => {
-                let end_idx = (begin_idx + self.chunk_size)
+                let end_idx = begin_idx
+                    .saturating_add(self.chunk_size)
                     .min(slice.len())
                     .max(begin_idx);
                 let values = slice[begin_idx..end_idx].iter();
